@@ -2,6 +2,7 @@ package main
 
 import (
 	"flag"
+	"sync"
 	"fmt"
 	"os"
 	"strings"
@@ -48,6 +49,7 @@ func main() {
 		if res.Err != nil {
 			fmt.Println("ERROR:", res.Err)
 		}
+		var sel []*Obligation
 		for _, o := range res.VC.Obls {
 			if *dump != "" {
 				if o.Name == *dump {
@@ -58,8 +60,21 @@ func main() {
 			if *only != "" && !strings.Contains(o.Name, *only) {
 				continue
 			}
-			line := fmt.Sprintf("%-70s %-9s %s", o.Name, o.Kind, o.Pos)
-			if *run {
+			sel = append(sel, o)
+		}
+		lines := make([]string, len(sel))
+		var wg sync.WaitGroup
+		sem := make(chan struct{}, 10)
+		for i, o := range sel {
+			lines[i] = fmt.Sprintf("%-70s %-9s %s", o.Name, o.Kind, o.Pos)
+			if !*run {
+				continue
+			}
+			wg.Add(1)
+			go func(i int, o *Obligation) {
+				defer wg.Done()
+				sem <- struct{}{}
+				defer func() { <-sem }()
 				var r SolverResult
 				if o.Expect == Unsat && o.HasHeavy() {
 					r = Solve(o.QueryMode(false, true), maxInt(5, *timeout/3), 0, nil)
@@ -72,12 +87,15 @@ func main() {
 					r = Solve(o.Query(true), *timeout, 0, nil)
 				}
 				ok := r.Answer == o.Expect || (o.Expect == Sat && r.Answer != Unsat)
-				line += fmt.Sprintf("  %s %s %.2fs ok=%v", r.Answer, r.Backend, r.Seconds, ok)
+				lines[i] += fmt.Sprintf("  %s %s %.2fs ok=%v", r.Answer, r.Backend, r.Seconds, ok)
 				if !ok {
-					line += "\n    " + strings.ReplaceAll(truncate(r.Output, 600), "\n", "\n    ")
+					lines[i] += "\n    " + strings.ReplaceAll(truncate(r.Output, 600), "\n", "\n    ")
 				}
-			}
-			fmt.Println(line)
+			}(i, o)
+		}
+		wg.Wait()
+		for _, l := range lines {
+			fmt.Println(l)
 		}
 		fmt.Println("assumptions:", res.VC.Assumes)
 		fmt.Println("external:", res.External, "inlined:", res.Inlined, "contracts used:", res.UnderCon)
